@@ -1,10 +1,72 @@
 import Driver.JsonUtil
+import DSV.Generated.Facts
+import DSV.Cost.Wire
+import DSV.Cost.Decimal
+import DSV.Cost.Validate
 open Lean
 namespace Driver
-open DSV
+open DSV DSV.Cost DSV.LLO
 
-/-- op handlers of this area; return `none` for op names that are not handled here -/
+/-- the nesting limit of the tree under test (extracted constant) -/
+def repoLimit : Option Nat := some Facts.llo_maxTimestampedStreamValueNesting
+
+def jOut (o : Out) : Json :=
+  Json.mkObj [("res", .str o.res), ("scan", jNat o.scan), ("levels", jNat o.levels)]
+
+/-- the decimal `1` in binary form (6 bytes) -/
+def oneBytes : List UInt8 := Dec.marshalBinary ⟨1, 0⟩
+
+/-- model cost of one member of a measured family -/
+def familyCost (family : String) (n : Nat) : P Nat :=
+  match family with
+  -- one stream value nested n levels, decoded with the repository's limit / without any limit
+  | "nested-tsv" => pure (validateCost repoLimit (singleEntry (wrapSVBytes (nestBytes n))))
+  | "nested-tsv-nolimit" => pure (validateCost none (singleEntry (wrapSVBytes (nestBytes n))))
+  -- n decimal stream values of 6 bytes each
+  | "many-values" =>
+      let e : List UInt8 := [18, 6] ++ oneBytes      -- LLOStreamValue{type 0 (omitted), value = 6 bytes}
+      pure (validateCost repoLimit ⟨n * (e.length + 6), List.replicate n e⟩)
+  -- one decimal whose coefficient has n magnitude bytes
+  | "long-digits" => pure (validateCost repoLimit ⟨n + 16, [List.replicate (n + 9) 1]⟩)
+  -- Cmp of 1e<n> with 1
+  -- closed form of `cmpCost ⟨1, n⟩ ⟨1, 0⟩` (by `numDigits_pow10` / `numDigits_mul_pow10`): copy 1 digit,
+  -- n+1 digits of 10^n, n+1 digits of the product, 1 digit compared.  Evaluated directly for small n.
+  | "exp-gap" => if n ≤ 2000 then pure (cmpCost ⟨1, n⟩ ⟨1, 0⟩) else pure (2 * n + 4)
+  -- F2: the proved lower bound (theorem `F2_witness`); evaluating `cmpCost f2Witness _` itself would
+  -- materialise 10^(2^31) inside the model as well
+  | "f2" => pure (f2Witness.exp.natAbs + 1)
+  | _ => throw s!"unknown family {family}"
+where
+  wrapSVBytes (inner : List UInt8) : List UInt8 := [8, 2, 18] ++ (varint inner.length ++ inner)
+
+/-- ops
+* `cost.sv` `{"typ":n,"value":"hex"}` → `{"ok":{"res","scan","levels"}}` : `UnmarshalProtoStreamValue` with the repository's nesting limit
+* `cost.cmp` `{"a":Dec,"b":Dec}` → `{"ok":{"cmp","pow_digits","scaled_digits"}}`
+* `cost.bigint` `{"d":Dec}` → `{"ok":{"digits","pow_digits"}}`
+* `cost.model` `{"family":…,"n":…}` → `{"ok":{"cost":…}}` (queried by the harness for the evidence file; no implementation counterpart) -/
 def handleCost (op : String) (j : Json) : Option (P Json) :=
   match op with
+  | "cost.sv" => some (do
+      let typ ← getNat j "typ"
+      let v ← getBytes j "value"
+      pure (Json.mkObj [("ok", jOut (svDecode repoLimit typ v))]))
+  | "cost.cmp" => some (do
+      let a ← fld j "a" >>= asDec
+      let b ← fld j "b" >>= asDec
+      let k := (a.exp - b.exp).natAbs
+      let scaled : Int := if a.exp = b.exp then 0 else if a.exp < b.exp then (b.rescale a.exp).coef else (a.rescale b.exp).coef
+      pure (Json.mkObj [("ok", Json.mkObj [("cmp", jInt (Dec.cmp a b)),
+        ("pow_digits", jNat (if k = 0 then 0 else k + 1)),
+        ("scaled_digits", jNat (if k = 0 then 0 else digitsOf scaled))])]))
+  | "cost.bigint" => some (do
+      let d ← fld j "d" >>= asDec
+      let k := d.exp.natAbs
+      pure (Json.mkObj [("ok", Json.mkObj [("digits", jNat (digitsOf d.bigInt)),
+        ("pow_digits", jNat (if k = 0 then 0 else k + 1))])]))
+  | "cost.model" => some (do
+      let f ← getStr j "family"
+      let n ← getNat j "n"
+      let c ← familyCost f n
+      pure (Json.mkObj [("ok", Json.mkObj [("cost", jNat c)])]))
   | _ => none
 end Driver
